@@ -209,6 +209,43 @@ def run_schedule(info, rng, policy="random", check_mutation=True):
     cache = {}
     muts = []
     prio = {k: i for i, k in enumerate(info["order"])}
+    # mutable literals (dicts, lists, frames) embedded BY REFERENCE in the tasks of several keys: an object shared by several
+    # consumers just like a computed intermediate; fingerprinted around every task that holds it
+    holders = {}
+
+    def literals(t, acc, depth=0):
+        if isinstance(t, (dict, list, pd.DataFrame, pd.Series, np.ndarray)) and not (isinstance(t, list) and all(ishashable(x) and x in graph for x in t if not isinstance(x, (list, dict)))):
+            acc.setdefault(id(t), t)
+        if depth < 6:
+            if isinstance(t, (tuple, list)):
+                for x in t:
+                    literals(x, acc, depth + 1)
+            elif isinstance(t, dict):
+                for x in t.values():
+                    literals(x, acc, depth + 1)
+        return acc
+    if check_mutation:
+        per_key = {k: literals(t, {}) for k, t in graph.items() if isinstance(t, tuple)}
+        count = {}
+        for k, acc in per_key.items():
+            for i in acc:
+                count[i] = count.get(i, 0) + 1
+        for k, acc in per_key.items():
+            shared = {i: o for i, o in acc.items() if count[i] >= 2}
+            if shared:
+                holders[k] = shared
+
+    def run_one(k):
+        before = {d: fingerprint(cache[d]) for d in deps[k] if d != k} if check_mutation else {}
+        lit_before = {i: fingerprint(o) for i, o in holders.get(k, {}).items()}
+        cache[k] = _execute_task(graph[k], cache)
+        if check_mutation:
+            for d, fp in before.items():
+                if fingerprint(cache[d]) != fp:
+                    muts.append("task %r modified its input %r" % (k, d))
+            for i, fp in lit_before.items():
+                if fingerprint(holders[k][i]) != fp:
+                    muts.append("task %r modified an object embedded in the tasks of several keys (%s)" % (k, type(holders[k][i]).__name__))
     if policy == "demand":
         # demand-driven: depth-first from the output keys (what a culling scheduler does); tasks nothing depends on run last
         seq, seen = [], set()
@@ -227,12 +264,7 @@ def run_schedule(info, rng, policy="random", check_mutation=True):
                     seen.add(nxt)
                     stack.append((nxt, iter(sorted(waiting.get(nxt, ()), key=lambda d: prio[d]))))
         for k in seq:
-            before = {d: fingerprint(cache[d]) for d in deps[k] if d != k} if check_mutation else {}
-            cache[k] = _execute_task(graph[k], cache)
-            if check_mutation:
-                for d, fp in before.items():
-                    if fingerprint(cache[d]) != fp:
-                        muts.append("task %r modified its input %r" % (k, d))
+            run_one(k)
         return [cache.get(o) for o in outs], muts
     while ready:
         if policy == "random":
@@ -244,12 +276,7 @@ def run_schedule(info, rng, policy="random", check_mutation=True):
         else:
             i = 0
         k = ready.pop(i)
-        before = {d: fingerprint(cache[d]) for d in deps[k] if d != k} if check_mutation else {}
-        cache[k] = _execute_task(graph[k], cache)
-        if check_mutation:
-            for d, fp in before.items():
-                if fingerprint(cache[d]) != fp:
-                    muts.append("task %r modified its input %r" % (k, d))
+        run_one(k)
         for dep in dependents[k]:
             waiting[dep].discard(k)
             if not waiting[dep] and dep not in cache and dep not in ready:
